@@ -537,6 +537,7 @@ func ruleC12(w *World, r *Report) {
 	ruleC12ResetConsumers(w, r)
 	ruleC12Connected(w, r)
 	ruleC12ReaderVerdict(w, r)
+	ruleC12More(w, r)
 }
 
 func isTypeAssertOK(v ssa.Value) bool {
@@ -1072,4 +1073,77 @@ func ruleC12ReaderVerdict(w *World, r *Report) {
 		})
 	}
 	r.floor("R12.8 reader hand-offs to Serve", n, 1)
+}
+
+// ruleC12More (R12.9, R12.10).
+func ruleC12More(w *World, r *Report) {
+	const P = "C12"
+	// R12.9: go-pfcp parses a datagram without copying it, and a response to one of the agent's own requests
+	// is handed to the goroutine that waits for it. The bytes handed to HandlePFCPMsg must therefore not be
+	// the receive buffer the reader is about to overwrite with the next datagram: a private copy per message.
+	{
+		serve := w.Fn(P, "pfcpiface.(*PFCPConn).Serve")
+		handle := w.Fn(P, "pfcpiface.(*PFCPConn).HandlePFCPMsg")
+		n := 0
+		for _, g := range withClosures(serve) {
+			for _, c := range callsTo(g, handle) {
+				n++
+				arg := c.Common().Args[1]
+				// made after this message was read: the allocation (make / append to an empty slice) follows the Read
+				var read ssa.Instruction
+				allInstrs(g, func(i ssa.Instruction) {
+					if rc, ok := i.(*ssa.Call); ok && rc.Call.IsInvoke() && rc.Call.Method.Name() == "Read" {
+						read = i
+					}
+				})
+				perMessage := false
+				var root func(v ssa.Value, d int) ssa.Instruction
+				root = func(v ssa.Value, d int) ssa.Instruction {
+					if d > 5 {
+						return nil
+					}
+					switch x := v.(type) {
+					case *ssa.MakeSlice:
+						return x
+					case *ssa.Slice:
+						if al, ok := x.X.(*ssa.Alloc); ok {
+							return al
+						}
+						return root(x.X, d+1)
+					case *ssa.Call:
+						if calleeName(x) == "builtin.append" {
+							if r0 := root(x.Call.Args[0], d+1); r0 != nil {
+								return x // the append itself allocates when its base is fresh and empty
+							}
+						}
+					}
+					return nil
+				}
+				if ri := root(arg, 0); ri != nil && read != nil && instrDominates(read, ri) {
+					perMessage = true
+				}
+				r.check(isFreshSlice(arg) && perMessage, "R12.9", w.FuncName(g), "each datagram is handled from a copy of its own", w.Pos(c.Pos()), "fresh slice", "HandlePFCPMsg is given "+symOf(arg).String()+", the reader's receive buffer: the parsed message (IEs point into it) is handed to the goroutine waiting for the response while the reader already reads the next datagram into the same bytes — an accepted Association Setup Response followed closely by a heartbeat is read as garbage and the peer is declared failed")
+			}
+		}
+		r.floor("R12.9 dispatch sites in the reader", n, 1)
+	}
+	// R12.10: UP4 reports "connected" only after its initialisation succeeded: tryConnect marks the
+	// connection up on the success edge of initialize(), never before — otherwise a failed initialisation
+	// leaves IsConnected() true, associations are accepted and tryConnect never retries.
+	{
+		f := w.Fn(P, "pfcpiface.(*UP4).tryConnect")
+		set := w.Fn(P, "pfcpiface.(*UP4).setConnectedStatus")
+		initF := w.Fn(P, "pfcpiface.(*UP4).initialize")
+		inits := callsTo(f, initF)
+		n := 0
+		for _, c := range callsTo(f, set) {
+			if k, isK := constBool(c.Common().Args[1]); !isK || !k {
+				continue
+			}
+			n++
+			okS := len(inits) == 1 && errGuardedStrict(f, inits[0].(*ssa.Call), c.(ssa.Instruction))
+			r.check(okS, "R12.10", w.FuncName(f), "UP4 is marked connected only after initialize() succeeded", w.Pos(c.Pos()), "dominated by initialize() == nil", "setConnectedStatus(true) is not behind the success of initialize(): when the P4Runtime channel is reachable but the initialisation fails, IsConnected() stays true — Association Setup Requests are accepted although the datapath is not set up, and tryConnect never tries again")
+		}
+		r.floor("R12.10 setConnectedStatus(true) in tryConnect", n, 1)
+	}
 }
